@@ -56,42 +56,42 @@ Fixpoint node_all (P : node -> bool) (n : node) {struct n} : bool :=
   end.
 
 (* nesting depth of a tree: the recursion budget one template needs *)
-Fixpoint height (n : node) {struct n} : nat :=
-  let hmax := fold_right (fun x acc => Nat.max (height x) acc) 0%nat in
-  let hopt := fun o : option node => match o with Some x => height x | None => 0%nat end in
+Fixpoint tree_height (n : node) {struct n} : nat :=
+  let hmax := fold_right (fun x acc => Nat.max (tree_height x) acc) 0%nat in
+  let hopt := fun o : option node => match o with Some x => tree_height x | None => 0%nat end in
   S match n with
     | NFunc _ _ args => hmax args
     | NListLit _ items => hmax items
-    | NMapLit _ items => fold_right (fun kv acc => Nat.max (height (snd kv)) acc) 0%nat items
+    | NMapLit _ items => fold_right (fun kv acc => Nat.max (tree_height (snd kv)) acc) 0%nat items
     | NDataRef _ _ acc => hmax acc
-    | NAccExpr _ _ e => height e
-    | NNot _ a | NNeg _ a => height a
-    | NBin _ _ a1 a2 => Nat.max (height a1) (height a2)
-    | NTern _ a1 a2 a3 => Nat.max (height a1) (Nat.max (height a2) (height a3))
+    | NAccExpr _ _ e => tree_height e
+    | NNot _ a | NNeg _ a => tree_height a
+    | NBin _ _ a1 a2 => Nat.max (tree_height a1) (tree_height a2)
+    | NTern _ a1 a2 a3 => Nat.max (tree_height a1) (Nat.max (tree_height a2) (tree_height a3))
     | NList _ ns => hmax ns
-    | NPrint _ arg dirs => Nat.max (height arg) (hmax dirs)
+    | NPrint _ arg dirs => Nat.max (tree_height arg) (hmax dirs)
     | NDirective _ _ args => hmax args
-    | NCss _ e _ => match e with Some x => height x | None => 0%nat end
-    | NLog _ body => height body
+    | NCss _ e _ => match e with Some x => tree_height x | None => 0%nat end
+    | NLog _ body => tree_height body
     | NIf _ conds => hmax conds
-    | NIfCond _ c body => Nat.max (match c with Some x => height x | None => 0%nat end) (height body)
+    | NIfCond _ c body => Nat.max (match c with Some x => tree_height x | None => 0%nat end) (tree_height body)
     | NFor _ _ lst body ie =>
-        Nat.max (height lst) (Nat.max (height body) (match ie with Some x => height x | None => 0%nat end))
-    | NSwitch _ v cases => Nat.max (height v) (hmax cases)
-    | NSwitchCase _ vs body => Nat.max (hmax vs) (height body)
-    | NCall _ _ _ dat params => Nat.max (match dat with Some x => height x | None => 0%nat end) (hmax params)
-    | NParamValue _ _ v => height v
-    | NParamContent _ _ c => height c
-    | NLetValue _ _ e => height e
-    | NLetContent _ _ body => height body
+        Nat.max (tree_height lst) (Nat.max (tree_height body) (match ie with Some x => tree_height x | None => 0%nat end))
+    | NSwitch _ v cases => Nat.max (tree_height v) (hmax cases)
+    | NSwitchCase _ vs body => Nat.max (hmax vs) (tree_height body)
+    | NCall _ _ _ dat params => Nat.max (match dat with Some x => tree_height x | None => 0%nat end) (hmax params)
+    | NParamValue _ _ v => tree_height v
+    | NParamContent _ _ c => tree_height c
+    | NLetValue _ _ e => tree_height e
+    | NLetContent _ _ body => tree_height body
     | NMsg _ _ _ _ body => hmax body
-    | NMsgPlaceholder _ _ body => height body
-    | NMsgPlural _ _ v cases dflt => Nat.max (height v) (Nat.max (hmax cases) (hmax dflt))
+    | NMsgPlaceholder _ _ body => tree_height body
+    | NMsgPlural _ _ v cases dflt => Nat.max (tree_height v) (Nat.max (hmax cases) (hmax dflt))
     | NMsgPluralCase _ _ body => hmax body
-    | NTemplate _ _ body _ _ => height body
+    | NTemplate _ _ body _ _ => tree_height body
     | _ => 0%nat
     end.
-Definition hmax (l : list node) : nat := fold_right (fun x acc => Nat.max (height x) acc) 0%nat l.
+Definition hmax (l : list node) : nat := fold_right (fun x acc => Nat.max (tree_height x) acc) 0%nat l.
 
 (* ------------------------------------------------------------------ *)
 (* what compilation guarantees about a registry (after the repairs: Registry.Add
@@ -139,4 +139,4 @@ Definition template_ranked (rank : bstr -> nat) (t : template) : bool :=
 Definition reg_ranked (rank : bstr -> nat) (reg : registry) : bool :=
   forallb (template_ranked rank) (r_templates reg).
 Definition reg_height (reg : registry) : nat :=
-  fold_right (fun t acc => Nat.max (height (t_node t)) acc) 0%nat (r_templates reg).
+  fold_right (fun t acc => Nat.max (tree_height (t_node t)) acc) 0%nat (r_templates reg).
